@@ -128,6 +128,12 @@ def sources(expr, env):
         return set(env.vars.get(expr.id, ()))
     fld = _field_of(expr)
     if fld:
+        meth = _method_of(env.func, fld)
+        if meth is not None:
+            # a bound method handed over as a callable (`partial(self._run,
+            # name)`): the task depends on what the method reads, exactly
+            # like a closure defined on the spot
+            return free_sources(meth.node, env)
         return {f'self.{fld}'}
     if isinstance(expr, ast.Attribute):
         # x.name, x.attr : property of the same source
@@ -177,6 +183,20 @@ def sources(expr, env):
         if isinstance(child, ast.expr):
             out |= sources(child, env)
     return out
+
+
+def _method_of(func, name):
+    todo = [func.cls] if getattr(func, 'cls', None) is not None else []
+    seen = set()
+    while todo:
+        klass = todo.pop()
+        if not hasattr(klass, 'methods') or id(klass) in seen:
+            continue
+        seen.add(id(klass))
+        if name in klass.methods:
+            return klass.methods[name]
+        todo.extend(klass.bases)
+    return None
 
 
 def _is_method(func, name):
